@@ -1,15 +1,15 @@
 CONSTANTS
-  CodeKeys = TRUE
+  CodeKeys = FALSE
   HasFV = TRUE
   HasImages = TRUE
-  StoreFailed = FALSE
-  PosKeyMode = "abs"
+  StoreFailed = TRUE
+  PosKeyMode = "u16"
   IdxKeyMode = "abs"
-  MaxDepth = 3
+  MaxDepth = 1
   MaxDepthDmg = 2
   MaxDepthCollide = 2
-  Families = {"intact", "dmg", "collide"}
+  Families = {"dmg", "collide"}
 SPECIFICATION Spec
 VIEW View
-INVARIANTS ModelExact EmitCase
+INVARIANTS EmitCase
 CHECK_DEADLOCK FALSE
